@@ -16,6 +16,8 @@ def case_name(c):
     if c["op"] not in ("rolling_shift", "rolling_diff"):
         s += f",min_periods={c.get('min_periods')}"
     s += f"/mask={c['mask']['kind']}"
+    if c.get("chunks"):
+        s += "/valchunks=" + "+".join(map(str, c["chunks"]))
     if c.get("codes") is not None:
         s += "/codes=" + ",".join(map(str, c["codes"]))
     if c["mask"]["kind"] == "bool":
@@ -57,6 +59,14 @@ def call(E, case, d):
     dt = real_np.dtype(case["dtype"])
     codes = A(d["codes"], "int64").tag("input:group_key")
     vals = A(d["values"], dt).tag("input:values")
+    if case.get("chunks"):
+        # a chunked values array: the kernels walk the chunks one after the other
+        from ..models import FakeChunked
+        parts, p0 = [], 0
+        for L in case["chunks"]:
+            parts.append(vals[p0:p0 + L])
+            p0 += L
+        vals = FakeChunked(parts)
     mask = A(d["mask"], "bool").tag("input:mask") if "mask" in d else None
     G, W = case["G"], case["W"]
     if case["op"] in ("rolling_shift", "rolling_diff"):
@@ -204,6 +214,13 @@ def real_call(case, conc):
     import groupby_lib.groupby.numba as rnb
     codes = real_np.array(conc["k"], dtype="int64")
     vals = np_values(to_float_cells(conc["v"]), case["dtype"])
+    if case.get("chunks"):
+        import pyarrow as pa
+        parts, p0 = [], 0
+        for L in case["chunks"]:
+            parts.append(pa.array(vals[p0:p0 + L], from_pandas=False))
+            p0 += L
+        vals = pa.chunked_array(parts)
     mk = case["mask"]["kind"]
     mask = None
     if mk == "bool_sym":
